@@ -76,17 +76,17 @@ func (in *Interp) bigIntrinsic(name string, args []Value) (Value, bool) {
 	z := in.bigOf(args[0])
 	switch short {
 	case "SetInt64":
-		z.dig = nil
+		z.dig, z.byt = nil, nil
 		z.v = BV2Int(args[1].(*Term), true)
 		return args[0], true
 	case "SetUint64":
 		z.v = BV2Int(args[1].(*Term), false)
 		return args[0], true
 	case "Set":
-		z.v, z.dig = in.bigOf(args[1]).v, in.bigOf(args[1]).dig
+		z.v, z.dig, z.byt = in.bigOf(args[1]).v, in.bigOf(args[1]).dig, in.bigOf(args[1]).byt
 		return args[0], true
 	case "Int64":
-		return Int2BV(z.v, 64), true
+		return in.intResult(z.v), true // low 64 bits, two's complement
 	case "Uint64":
 		return Int2BV(z.v, 64), true
 	case "IsInt64":
@@ -95,20 +95,20 @@ func (in *Interp) bigIntrinsic(name string, args []Value) (Value, bool) {
 		return Ite(ICmp("<", z.v, IntC(0)), IntC(-1), Ite(Eq(z.v, IntC(0)), IntC(0), IntC(1))), true
 	case "Neg":
 		x := in.bigOf(args[1])
-		z.v, z.dig = IArith("-", IntC(0), x.v), x.dig
+		z.v, z.dig, z.byt = IArith("-", IntC(0), x.v), x.dig, x.byt
 		return args[0], true
 	case "Abs":
 		x := in.bigOf(args[1])
-		z.v, z.dig = iabs(x.v), x.dig
+		z.v, z.dig, z.byt = iabs(x.v), x.dig, x.byt
 		return args[0], true
 	case "Add":
 		x, y := in.bigOf(args[1]), in.bigOf(args[2])
-		z.dig = nil
+		z.dig, z.byt = nil, nil
 		// adding zero keeps the textual form
 		if x.v.IsConst() && x.v.c.Sign() == 0 {
-			z.dig = y.dig
+			z.dig, z.byt = y.dig, y.byt
 		} else if y.v.IsConst() && y.v.c.Sign() == 0 {
-			z.dig = x.dig
+			z.dig, z.byt = x.dig, x.byt
 		}
 		z.v = IArith("+", x.v, y.v)
 		return args[0], true
@@ -116,11 +116,11 @@ func (in *Interp) bigIntrinsic(name string, args []Value) (Value, bool) {
 		z.v = IArith("+", in.bigOf(args[1]).v, in.bigOf(args[2]).v)
 		return args[0], true
 	case "Sub":
-		z.dig = nil
+		z.dig, z.byt = nil, nil
 		z.v = IArith("-", in.bigOf(args[1]).v, in.bigOf(args[2]).v)
 		return args[0], true
 	case "Mul":
-		z.dig = nil
+		z.dig, z.byt = nil, nil
 		z.v = IArith("*", in.bigOf(args[1]).v, in.bigOf(args[2]).v)
 		return args[0], true
 	case "Exp":
@@ -177,6 +177,16 @@ func (in *Interp) bigIntrinsic(name string, args []Value) (Value, bool) {
 		}
 		return IX(int64(k)), true
 	case "Bytes":
+		if z.byt != nil && !z.v.IsConst() {
+			// the bytes the value was set from, without leading zero bytes
+			n, _ := constInt(z.byt.len)
+			lo := 0
+			for lo < n && in.branch(Eq(z.byt.obj.node.Read(IArith("+", z.byt.off, IX(int64(lo)))), BV(8, 0))) {
+				lo++
+			}
+			k := IX(int64(n - lo))
+			return &SliceV{obj: z.byt.obj, off: IArith("+", z.byt.off, IX(int64(lo))), len: k, cap: k}, true
+		}
 		a := iabs(z.v)
 		k := in.byteLen(a)
 		node := zeroArr(8)
@@ -201,7 +211,10 @@ func (in *Interp) bigIntrinsic(name string, args []Value) (Value, bool) {
 			b := BV2Int(s.obj.node.Read(IArith("+", s.off, IX(int64(i)))), false)
 			v = IArith("+", IArith("*", v, IntC(256)), b)
 		}
-		z.v = v
+		z.v, z.dig = v, nil
+		// snapshot of the bytes (SetBytes does not retain its argument)
+		snap := zeroArr(8).Copy(IX(0), s.obj.node, s.off, IX(int64(n)))
+		z.byt = &SliceV{obj: &ArrObj{node: snap, ew: 8}, off: IX(0), len: IX(int64(n)), cap: IX(int64(n))}
 		return args[0], true
 	case "SetString":
 		s := args[1].(*StrV)
@@ -248,7 +261,7 @@ func (in *Interp) bigIntrinsic(name string, args []Value) (Value, bool) {
 			v = IArith("+", IArith("*", v, IntC(10)), BV2Int(Bin("bvsub", b, BV(8, '0')), false))
 		}
 		z.v = Ite(neg, IArith("-", IntC(0), v), v)
-		z.dig = s.sub(start, n)
+		z.dig, z.byt = s.sub(start, n), nil
 		return TupleV{args[0], Bool(true)}, true
 	case "String":
 		return in.bigStringObj(z), true
